@@ -46,6 +46,12 @@ type ar struct {
 	appendCodes map[string]int
 	// membership loops `for _, x := range S { if a == x { v = true; break } }` : S -> (lean Bool, "does S contain a")
 	containsAtoms map[string]string
+	// receiver fields treated as variables of the translated function: source text ("l.isLocked") -> variable name
+	fieldVars map[string]string
+	// methods that may be spliced in where they are called as a statement (`l.unlock()`): call source -> body
+	splice map[string][]ast.Stmt
+	// what a function without result "returns" when it falls off its end (Lean text over the variables)
+	endExpr string
 }
 
 func (a *ar) unk(what string) (string, kind) {
@@ -108,6 +114,11 @@ func (a *ar) expr(e ast.Expr, en env) (string, kind) {
 	src := srcOf(e)
 	if at, ok := a.atoms[src]; ok {
 		return at[0], kindOf(at[1])
+	}
+	if name, ok := a.fieldVars[src]; ok {
+		if k, ok := en[name]; ok {
+			return name, k
+		}
 	}
 	switch v := e.(type) {
 	case *ast.ParenExpr:
@@ -316,6 +327,12 @@ func (a *ar) ret(r *ast.ReturnStmt, en env) string {
 			}
 		}
 	}
+	if a.fn == "lockedFn" && len(r.Results) == 1 {
+		x, k := a.expr(r.Results[0], en)
+		if k == kB {
+			return "(" + x + ", isLocked, requested)"
+		}
+	}
 	if a.fn == "awsGuard" && len(r.Results) == 1 {
 		e := r.Results[0]
 		if isNil(e) {
@@ -376,6 +393,9 @@ func (a *ar) block(ss []ast.Stmt, en env, ind string) string {
 		if a.appendTo != "" || a.appendCodes != nil {
 			return ind + "appended_"
 		}
+		if a.endExpr != "" {
+			return ind + a.endExpr
+		}
 		u, _ := a.unk("function falls off its end")
 		return ind + u
 	}
@@ -426,6 +446,9 @@ func (a *ar) block(ss []ast.Stmt, en env, ind string) string {
 	case *ast.ExprStmt:
 		if isLogStmt(s) {
 			return a.block(rest, en, ind)
+		}
+		if body, ok := a.splice[srcOf(v.X)]; ok {
+			return a.block(append(append([]ast.Stmt{}, body...), rest...), en, ind)
 		}
 	case *ast.AssignStmt:
 		// xs = append(xs, x) in classification mode
@@ -480,6 +503,11 @@ func (a *ar) block(ss []ast.Stmt, en env, ind string) string {
 			ok := true
 			for i := range v.Lhs {
 				id, isId := v.Lhs[i].(*ast.Ident)
+				if !isId {
+					if name, isField := a.fieldVars[srcOf(v.Lhs[i])]; isField {
+						id, isId = ast.NewIdent(name), true
+					}
+				}
 				if !isId {
 					ok = false
 					break
